@@ -278,12 +278,14 @@ func init() {
 		}
 		switch hkind {
 		case "name":
-			alphabet = append(alphabet, "T.unregister", "T.register")
+			// (claim-target: the observer tries to take the name for itself while T holds it - refused, and without
+			// consequences for T's name when that observer terminates later)
+			alphabet = append(alphabet, "T.unregister", "T.register", "O2.claim-target", "O2.normal")
 		case "alias":
 			// further aliases of the same owner come and go: they must not disturb the watched (first) one
 			alphabet = append(alphabet, "T.unregister", "T.alias-more", "T.delalias-other")
 		case "event":
-			alphabet = append(alphabet, "T.unregister", "T.register")
+			alphabet = append(alphabet, "T.unregister", "T.register", "O2.claim-target", "O2.normal")
 		}
 		spec := harn.OpSeqSpec{Alphabet: alphabet, DepthQuick: 5, DepthThorough: 7, NoDedupQuick: 3, NoDedupThorough: 4}
 		spec.Run = func(hist []int, fail func(kind, format string, a ...any)) string {
@@ -401,6 +403,23 @@ func init() {
 							return nil
 						})
 						present = true
+					case what == "claim-target": // refused while T holds the name/event; histories in which it is free are not followed
+						if !alive[who] || !present || !alive["T"] {
+							key = ""
+							return
+						}
+						w.Do(who, func(p *probe) error {
+							if kind == "name" {
+								gotErr = p.RegisterName(t.name.Name)
+							} else {
+								_, gotErr = p.RegisterEvent(t.event.Name, gen.EventOptions{})
+							}
+							ran = true
+							return nil
+						})
+						if !ran || gotErr == nil {
+							fail("request-result", "%s: claiming the %s that T holds returned %v (ran=%v)", op, kind, gotErr, ran)
+						}
 					case what == "normal": // observer terminates
 						if !alive[who] {
 							key = ""
